@@ -217,6 +217,17 @@ func TestEngineStaking(t *testing.T) {
 		valAddr[101+i] = bz
 		valIDs = append(valIDs, 101+i)
 	}
+	{ // one validator is jailed (without slashing): the native messages accept it as a target, so must the precompile
+		cons, err := vals[len(vals)-1].GetConsAddr()
+		require.NoError(t, err)
+		if !bytes.Equal(cons, c.hdr.ProposerAddress) {
+			require.NoError(t, sk.Jail(base, cons))
+		} else {
+			cons, err = vals[0].GetConsAddr()
+			require.NoError(t, err)
+			require.NoError(t, sk.Jail(base, cons))
+		}
+	}
 	valAddr[199] = sdk.ValAddress(common.HexToAddress("0x00000000000000000000000000000000000badff").Bytes()) // not a validator
 	valStr := func(id int) string {
 		s, _ := sk.ValidatorAddressCodec().BytesToString(valAddr[id])
